@@ -128,6 +128,11 @@ def build_task(job):
         data["logid"] = job["_logid"]
     if job.get("_callfile"):
         data["callfile"] = job["_callfile"]
+    if job.get("derive_from"):
+        # a task derived from an already USED task of the same shape (model_copy keeps pydantic private state): multi-step history
+        base = gen.make_task(job["derive_from"], job["objective"], data=dict(data), **kw)
+        base.get_variables(); base.get_bounds(); base.correct_solution(base.initial_solution()); base.transform_solution(base.initial_solution())
+        return base.model_copy(update={"variables": [gen.make_variable(s, f"v{i}") for i, s in enumerate(job["specs"])], "data": {"objective": job["objective"], **data}})
     return gen.make_task(job["specs"], job["objective"], data=data, **kw)
 
 
